@@ -1081,7 +1081,7 @@ def _hoist_nested_helper_calls(mod, stmts, caller):
             # a helper call in the iterable of a loop (evaluated once, before the loop):  for v in helper(a).items()  ->  tmp = helper(a); for v in tmp.items()
             pre = []
             for c in list(ast.walk(s.iter)):
-                if isinstance(c, ast.Call):
+                if isinstance(c, ast.Call) and c is not s.iter:      # the helper's value is used inside the iterable (h(x).items()); 'for v in h(x)' is expanded as a loop
                     h = _module_helper(mod, c.func, caller)
                     if h is not None and h is not caller and _single_expr_helper(h) is None and not _has(h, (ast.Yield, ast.YieldFrom)) \
                             and all(_pure_arg(a) for a in c.args) and not c.keywords and not pre:
@@ -1348,6 +1348,12 @@ def _nest_guard_continue(stmts, in_loop=False):
             t = s.test
             neg = t.operand if isinstance(t, ast.UnaryOp) and isinstance(t.op, ast.Not) else ast.UnaryOp(op=ast.Not(), operand=t)
             out.append(ast.copy_location(ast.If(test=neg, body=rest, orelse=[]), s))
+            return out
+        if in_loop and isinstance(s, ast.If) and not s.orelse and len(s.body) > 1 and isinstance(s.body[-1], ast.Continue) and i + 1 < len(stmts) \
+                and not any(isinstance(x, (ast.FunctionDef, ast.ClassDef)) for x in stmts[i + 1:]):
+            # if C: S; continue      REST        ->      if C: S  else: REST
+            rest = _nest_guard_continue(stmts[i + 1:], in_loop)
+            out.append(ast.copy_location(ast.If(test=s.test, body=s.body[:-1], orelse=rest), s))
             return out
         out.append(s)
     return out
@@ -1834,11 +1840,45 @@ def _allocator_roles(fn):
     return _Rename(ren).visit(fn)
 
 
-_SHAPE_STEPS = os.environ.get("SA_SHAPE_STEPS", "ret,pos,merge,else,cond").split(",")
+def _lookup_or_default(fn):
+    """if k in T: return T[k]      return D        ->      return T.get(k, D)          (T a plain name, D without side effects)
+       return T[k] if k in T else D               ->      return T.get(k, D)"""
+    def as_get(test, hit, default):
+        if isinstance(test, ast.Compare) and len(test.ops) == 1 and isinstance(test.ops[0], ast.In) and isinstance(test.comparators[0], ast.Name) \
+                and isinstance(hit, ast.Subscript) and norm_(hit.value) == norm_(test.comparators[0]) and norm_(hit.slice) == norm_(test.left) \
+                and isinstance(test.left, ast.Name) and (_pure_arg(default) or isinstance(default, ast.Tuple) and all(_pure_arg(x) for x in default.elts)):
+            return ast.Call(func=ast.Attribute(value=_clone(test.comparators[0]), attr="get", ctx=ast.Load()), args=[_clone(test.left), default], keywords=[])
+        return None
+
+    def f(stmts):
+        out = []
+        i = 0
+        while i < len(stmts):
+            s = stmts[i]
+            nxt = stmts[i + 1] if i + 1 < len(stmts) else None
+            if isinstance(s, ast.If) and not s.orelse and len(s.body) == 1 and isinstance(s.body[0], ast.Return) and s.body[0].value is not None \
+                    and isinstance(nxt, ast.Return) and nxt.value is not None:
+                g = as_get(s.test, s.body[0].value, nxt.value)
+                if g is not None:
+                    out.append(ast.copy_location(ast.Return(value=ast.copy_location(g, s)), s))
+                    i += 2
+                    continue
+            if isinstance(s, ast.Return) and isinstance(s.value, ast.IfExp):
+                g = as_get(s.value.test, s.value.body, s.value.orelse)
+                if g is not None:
+                    s.value = ast.copy_location(g, s.value)
+            out.append(s)
+            i += 1
+        return out
+    fn.body = _walk_blocks(fn.body, f)
+    return fn
+
+
+_SHAPE_STEPS = os.environ.get("SA_SHAPE_STEPS", "ret,pos,merge,else,cond,lookup").split(",")
 
 
 def _shape_normalise(fn):
-    for key, step in (("ret", _return_temp), ("else", _else_after_return), ("pos", _positive_tests), ("cond", _assign_by_condition), ("merge", _merge_nested_ifs)):
+    for key, step in (("ret", _return_temp), ("else", _else_after_return), ("lookup", _lookup_or_default), ("pos", _positive_tests), ("cond", _assign_by_condition), ("merge", _merge_nested_ifs)):
         if key in _SHAPE_STEPS:
             fn = step(fn)
     return fn
